@@ -202,7 +202,8 @@ package quic
 //@   requires h.qInv()
 //@   panics when h.closed
 //@   ensures [rotates-with-retire] implies(h.activeSequenceNumber != old(h.activeSequenceNumber), called("field:queueControlFrame") == 1)
-//@   ensures [no-silent-retire] implies(h.activeSequenceNumber == old(h.activeSequenceNumber), called("field:queueControlFrame") == 0 && len(h.queue) == old(len(h.queue)))
+//@   ensures [no-silent-retire] iff(called("field:queueControlFrame") == 0, len(h.queue) == old(len(h.queue))) && iff(called("field:queueControlFrame") == 1, len(h.queue) == old(len(h.queue)) - 1) && called("field:queueControlFrame") <= 1
+//@   ensures [unchanged-without-retire] implies(called("field:queueControlFrame") == 0, h.activeSequenceNumber == old(h.activeSequenceNumber) && h.highestRetired == old(h.highestRetired))
 //@   modifies h.highestRetired, h.queue, h.activeSequenceNumber, h.activeConnectionID.*, h.activeStatelessResetToken, h.packetsSinceLastChange, h.packetsPerConnectionID, h.rand.*
 
 //@ func (h *connIDManager) Add
@@ -287,6 +288,7 @@ package quic
 //@   requires m.activeSrcConnIDs != nil && m.highestSeq < 4611686018427387903 && !has(m.activeSrcConnIDs, m.highestSeq + 1) && m.statelessResetter != nil
 //@   ensures [sequence] implies(result == nil, m.highestSeq == old(m.highestSeq) + 1 && has(m.activeSrcConnIDs, m.highestSeq) && len(m.activeSrcConnIDs) == old(len(m.activeSrcConnIDs)) + 1)
 //@   ensures [announced] implies(result == nil, called("field:queueControlFrame") == 1)
+//@   ensures [others-kept] forall(k, implies(k != old(m.highestSeq) + 1, has(m.activeSrcConnIDs, k) == old(has(m.activeSrcConnIDs, k))))
 //@   ensures [failed] implies(result != nil, m.highestSeq == old(m.highestSeq) && len(m.activeSrcConnIDs) == old(len(m.activeSrcConnIDs)))
 //@   modifies m.activeSrcConnIDs[*], m.highestSeq
 
